@@ -1103,6 +1103,9 @@ def check_packages(ctx, pkgs, stream, direct=True):
             dmi = []
         else:
             dmi = diff_model_impl(ml, view)
+            if not direct:
+                # cyclic packages: whether a chain through a cycle resolves depends on resolution order and caching (C06's subject)
+                dmi = [x for x in dmi if ["unresolved"] not in (x[2], x[3])]
             ctx.count("c_compared")
             if dmi:
                 ctx.tie_failure("correspondence", "griffe_load(model) vs griffe.load", {"diffs": dmi[:6], "model_flags": [ml["f1"], ml["f3"]]}, case)
@@ -1197,8 +1200,10 @@ def explore(ctx):
                 ctx.notes.append(f"time budget reached after {done} {stream} packages")
                 break
     if not ctx.quick:
-        sample = [x for _ in range(12) for x in model_inputs(gen_package(ctx.rng, "xc", rich=True))]
-        ctx.cross_check_extraction(sample, n=36)
+        # vm_compute on string-heavy terms is slow: small flat packages only, plus the witnesses
+        sample = [x for _ in range(3) for x in model_inputs(gen_package(ctx.rng, "xc", rich=False))]
+        sample += [x for p in list(witness_packages().values())[:3] for x in model_inputs(p)[:1]]
+        ctx.cross_check_extraction(sample, n=12)
 
 
 def search(ctx):
